@@ -17,6 +17,7 @@ type accepted struct {
 	payload []byte
 	dest    bpv7.EndpointID
 	okSend  bool // a convergence layer reported a successful transmission
+	from    int  // 1: received from peer 1 (which therefore has it), 0: submitted locally
 }
 
 // node is a real Core plus the scripted peers around it.
@@ -131,22 +132,56 @@ func H05_History() {
 	n := newNode(algos[verif.Param("algo", 0)])
 	defer func() { n.c.Close() }()
 	depth := verif.Size("depth", 1, verif.Param("depth", 3))
+	// alphabet 0: the six basic events; 1: also the store-cleaning tick, a clock-less submission (zero creation time
+	// with a bundle-age block) and a bundle received from peer 1
+	nev := 6
+	if verif.Param("alphabet", 0) == 1 {
+		nev = 9
+	}
 	submitted := 0
 	for step := 0; step < depth; step++ {
 		before := len(n.log)
 		for i := range n.peers {
 			n.peers[i].fail = verif.Bool(nm("fail"+nm("p", i)+"s", step))
 		}
-		n.lastEv = verif.Choose(nm("ev", step), 6)
+		n.lastEv = verif.Choose(nm("ev", step), nev)
+		if shards := verif.Param("shards", 1); step == 0 && shards > 1 {
+			// the check configuration splits the histories by their first event over several workers
+			verif.Assume(n.lastEv%shards == verif.Param("shard", 0))
+		}
 		switch n.lastEv {
-		case 0: // application submits a bundle for a remote node (not a peer)
+		case 0, 7, 8: // a bundle for a remote node (not a peer) is accepted: 0 submitted by an application, 7 the same
+			// without a clock, 8 received from peer 1
+			if n.lastEv == 8 && !n.up[0] {
+				n.lastEv = -1
+				break
+			}
 			if submitted < 2 {
 				payload := []byte{byte('A' + submitted)}
-				b := dataBundle("dtn://this/app", "dtn://far/inbox", 0)
+				var b bpv7.Bundle
+				switch n.lastEv {
+				case 0:
+					b = dataBundle("dtn://this/app", "dtn://far/inbox", 0)
+				case 7:
+					var err error
+					b, err = bpv7.Builder().Source("dtn://this/app").Destination("dtn://far/inbox").CreationTimestampEpoch().
+						Lifetime("1h").BundleAgeBlock(0).PayloadBlock(payload).Build()
+					verif.Assume(err == nil)
+				case 8:
+					b = dataBundle("dtn://origin/app", "dtn://far/inbox", uint64(submitted), func(bl *bpv7.BundleBuilder) { bl.PreviousNodeBlock(n.peers[0].peer) })
+				}
 				b.CanonicalBlocks[len(b.CanonicalBlocks)-1].Value = bpv7.NewPayloadBlock(payload)
-				n.c.SendBundle(&b)
-				settle()
-				n.acc = append(n.acc, &accepted{id: b.ID(), payload: payload, dest: b.PrimaryBlock.Destination})
+				if n.lastEv == 8 {
+					inject(n.peers[0], b)
+				} else {
+					n.c.SendBundle(&b)
+					settle()
+				}
+				a := &accepted{id: b.ID(), payload: payload, dest: b.PrimaryBlock.Destination}
+				if n.lastEv == 8 {
+					a.from = 1
+				}
+				n.acc = append(n.acc, a)
 				submitted++
 			}
 		case 1, 2:
@@ -161,15 +196,17 @@ func H05_History() {
 			time.Sleep(10*time.Second + time.Millisecond)
 		case 5: // orderly restart
 			n.restart()
+		case 6: // store-cleaning tick (every ten minutes; the bundles' lifetime is one hour)
+			time.Sleep(10*time.Minute + time.Millisecond)
 		}
 		n.noteSends(before)
 		n.checkRetention("after event")
 		// epidemic: on a retry tick and whenever a peer appears, every connected peer that does not have a stored
 		// bundle yet (no successful transmission to it) is offered the bundle
-		if ev := n.lastEv; n.algo == "epidemic" && (ev == 4 || ev == 1 || ev == 2) {
+		if ev := n.lastEv; n.algo == "epidemic" && (ev == 4 || ev == 1 || ev == 2 || ev == 6) {
 			for _, a := range n.acc {
 				for i := range n.peers {
-					if !n.up[i] || n.delivered(a, i, before) {
+					if !n.up[i] || n.delivered(a, i, before) || a.from == i+1 {
 						continue
 					}
 					offered := false
@@ -187,7 +224,7 @@ func H05_History() {
 	if n.algo == "epidemic" {
 		for _, a := range n.acc {
 			for i := range n.peers {
-				if !n.up[i] {
+				if !n.up[i] || a.from == i+1 {
 					continue
 				}
 				offered := false
